@@ -258,6 +258,7 @@ func (g *Gen) recvCase(ok [rcN]bool, module bool, usedPool *[][2]uint64) {
 	}
 	var msg []byte
 	faults := "-"
+	noMessenger := false
 	if module {
 		bver := uint32(0)
 		if !ok[rcBodyVersion] {
@@ -268,7 +269,11 @@ func (g *Gen) recvCase(ok [rcN]bool, module bool, usedPool *[][2]uint64) {
 			tok = token(5 + g.pick(3))
 		}
 		sender := messengerAddr(src)
-		if !ok[rcSender] {
+		if !ok[rcSender] && g.chance(0.2) {
+			// no messenger registered for the source domain at all (restored after the receive)
+			noMessenger = true
+			g.tx("RemoveRemoteTokenMessenger", newKV().set("from", hs(g.role("owner"))).set("domain", fmt.Sprint(src)))
+		} else if !ok[rcSender] {
 			switch g.pick(5) {
 			case 0:
 				sender = g.rand32()
@@ -362,6 +367,9 @@ func (g *Gen) recvCase(ok [rcN]bool, module bool, usedPool *[][2]uint64) {
 	out := g.tx("ReceiveMessage", kv)
 	if strings.HasPrefix(out, "out=ok") {
 		*usedPool = append(*usedPool, [2]uint64{uint64(src), nonce})
+	}
+	if noMessenger {
+		g.tx("AddRemoteTokenMessenger", newKV().set("from", hs(g.role("owner"))).set("domain", fmt.Sprint(src)).set("address", hx(messengerAddr(src))))
 	}
 	if !ok[rcSendUnpaused] {
 		g.pauseTx("SendingAndReceivingMessages", false)
@@ -907,6 +915,9 @@ func scnAttesters(g *Gen, budget int, arg string) {
 	for g.nOps < budget {
 		n := 1 + g.pick(4)
 		t := 1 + g.pick(n)
+		if g.chance(0.15) {
+			n, t = 0, 1 // a chain that starts without any attester: every receive / replace must be refused until one is enabled
+		}
 		g.config()
 		sp := g.standardGenesis(n, t)
 		g.emit(Op{Kind: "genesis-init", KV: sp.kv()})
@@ -918,7 +929,9 @@ func scnAttesters(g *Gen, budget int, arg string) {
 				from = g.anyAcct()
 			}
 			cnt := len(g.attesters())
-			switch g.pick(7) {
+			switch g.pick(8) {
+			case 7:
+				g.validFlow(4 + g.pick(4))
 			case 0, 1:
 				k := g.pick(4)
 				a := g.pubHex[k]
